@@ -83,9 +83,14 @@ impl Service<Request<Bytes>> for Gauge {
     }
 }
 
+/// Which byte of the identity distinguishes the peers of the behaviour being replayed: identities
+/// are equal everywhere else, and the position moves from behaviour to behaviour, so a limiter
+/// that looks at part of the identity only (a prefix, a suffix, a hash of some bytes) mixes peers up.
+static ID_POS: std::sync::atomic::AtomicUsize = std::sync::atomic::AtomicUsize::new(0);
+
 fn peer_id(p: u64) -> PeerId {
-    let mut b = [0u8; 32];
-    b[0] = p as u8;
+    let mut b = [0x5au8; 32];
+    b[ID_POS.load(std::sync::atomic::Ordering::Relaxed) % 32] = p as u8;
     PeerId(b)
 }
 
@@ -136,6 +141,7 @@ pub fn replay_inflight(a: &Args) -> i32 {
     let mut mismatches = Vec::new();
     let mut steps = 0u64;
     for (bi, beh) in behaviours.iter().enumerate() {
+        ID_POS.store(bi * 7 + 31, std::sync::atomic::Ordering::Relaxed);
         let gauge = Gauge::default();
         let layer = InflightLimitLayer::new(max, mode);
         // requests go through clones of the layered service, as connections do
@@ -327,6 +333,7 @@ pub fn replay_auth(a: &Args) -> i32 {
     }
     // scripted authorizer, concurrent requests through clones
     for (bi, beh) in behaviours.iter().enumerate() {
+        ID_POS.store(bi * 7 + 31, std::sync::atomic::Ordering::Relaxed);
         evaluations += 1;
         let rec = Recorder { hold: true, ..Default::default() };
         let layer = RequireAuthorizationLayer::new(|req: &mut Request<Bytes>| {
@@ -454,6 +461,7 @@ pub fn replay_rate(a: &Args) -> i32 {
     let mut evaluations = 0u64;
     let period = std::time::Duration::from_secs(3600);
     for (bi, beh) in behaviours.iter().enumerate() {
+        ID_POS.store(bi * 7 + 31, std::sync::atomic::Ordering::Relaxed);
         evaluations += 1;
         let quota = governor::Quota::with_period(period)
             .unwrap()
